@@ -163,6 +163,8 @@ def _work(args):
           vs = [v for v in replay(ad, p, h, ref, single, observed=True) if v[0] == 'C11']
       except Exception as e:  # pylint: disable=broad-exception-caught
         vs = [('C01', f'{ad.name}:harness-error', f'{type(e).__name__}: {e} {traceback.format_exc()[-400:]}', dict(history=h))]
+      if getattr(ad, 'c01_only', False):
+        vs = [v for v in vs if v[0] == 'C01']
       for v in vs:
         c = seen_cls.get((v[0], v[1]), 0)
         seen_cls[(v[0], v[1])] = c + 1
